@@ -111,9 +111,14 @@ def srcv2Run (maxBlk : Nat) (body : Bytes) (size1 : Option Nat) :
   | [], _, acc => acc.reverse
   | it :: rest, st, acc =>
     match it with
-    | [num, m, szx] =>
+    | num :: m :: szx :: tl =>
+      if tl.length > 1 then ("bad-op" :: acc).reverse else
       let chunk := 2 ^ (szx + 4)
-      let (st', o) := srcvStep Coap.Generated.rblockCnt 0 maxBlk st num m szx ((body.drop (num * chunk)).take chunk) size1
+      let sl := (body.drop (num * chunk)).take chunk
+      let pl := match tl with
+        | [l] => if l ≤ sl.length then sl.take l else sl
+        | _ => sl
+      let (st', o) := srcvStep Coap.Generated.rblockCnt 0 maxBlk st num m szx pl size1
       srcv2Run maxBlk body size1 rest st' (showOut o m :: acc)
     | _ => ("bad-op" :: acc).reverse
 
@@ -179,6 +184,8 @@ def step (op : String) (args : List String) : String :=
   | "srcv", [a, b, c, d, seq] =>
     match nat? a, nat? b, nat? c with
     | some szx, some bodyLen, some seed =>
+      -- a Size1 beyond 64 MiB: the model would build a byte list of that length; only the harness runs (I-vs-S oracle)
+      if (match nat? d with | some t => decide (t > 2 ^ 26) | none => false) then "M big" else
       "M " ++ srcvStepLine szx bodyLen seed (if d = "-" then none else nat? d) seq
     | _, _, _ => "bad-op"
   | "srcv2", [a, b, c, d, seq] =>
